@@ -67,3 +67,37 @@ Example C03_ex :
   wf_queue (PGrouped 2) es = true /\ order_test (PGrouped 2) es [] [] [3; 40] = true /\
   order_test (PInter true) es [] [] [50] = true.
 Proof. vm_compute. repeat split; reflexivity. Qed.
+
+From PV Require Import Queue.ProofsXEmpty.
+
+(* ---- a queue to which NOTHING has been appended (repair r_empty_guard, part of all_rep) ----
+   For EVERY policy, every oracle (choices / permutations) and every sequence of non-negative requests the run
+   succeeds; the output is all zeros, of total length sum ns; the notifications are exactly one 'empty' per
+   request of at least one sample, so no trial is ever added; a ZERO-sample request returns nothing, notifies
+   nothing and leaves the state - the empty flag included - as it was; the clock is sum ns; the queue reports
+   empty exactly when some request of at least one sample has been made; nothing is logged, nothing remains. *)
+Theorem C03_no_stimuli : forall p ch pm ns, forallb (fun n => 0 <=? n) ns = true ->
+  exists q, pops all_rep (qinit p [] ch pm) ns =
+            Some (q, repeat OZero (Z.to_nat (sumZ ns)), map (fun _ => EEmpty) (filter (fun n => 0 <? n) ns)) /\
+            added_of (map (fun _ : Z => EEmpty) (filter (fun n => 0 <? n) ns)) = [] /\
+            q_samples q = sumZ ns /\ q_empty q = existsb (fun n => 0 <? n) ns /\
+            q_generated q = [] /\ count_trials q = 0 /\ count_requested q = 0.
+Proof. exact no_stimuli. Qed.
+Print Assumptions C03_no_stimuli.
+
+(* before that repair (rep_noguard = every other repair in force) the interleaved (both variants) and the
+   blocked-random queue RAISED on any request of at least one sample, whatever the oracle *)
+Theorem C03_no_stimuli_unrepaired_refuted : forall ch pm n, 0 < n ->
+  pops rep_noguard (qinit (PInter true) [] ch pm) [n] = None /\
+  pops rep_noguard (qinit (PInter false) [] ch pm) [n] = None /\
+  pops rep_noguard (qinit PBlockedRandom [] ch pm) [n] = None.
+Proof. exact no_stimuli_unrepaired_refuted. Qed.
+Print Assumptions C03_no_stimuli_unrepaired_refuted.
+
+Example C03_no_stimuli_ex :
+  forallb (fun p =>
+    match pops all_rep (qinit p [] [1; 0] [[0]; []]) [0; 5; 0; 3] with
+    | Some (q, out, ev) => (zlen out =? 8) && (zlen ev =? 2) && q_empty q && (q_samples q =? 8)
+    | None => false end)
+    [PFifo; PInter true; PInter false; PRandom; PBlockedRandom; PGrouped 1; PGrouped 2] = true.
+Proof. vm_compute. reflexivity. Qed.
